@@ -17,7 +17,7 @@ import z3
 
 from pyvc.framework import Harness
 from pyvc.interp import Spec, PyRaise, INLINE
-from pyvc.values import SInt, SBool, Opaque, Builtin, PyList, PyDict, Obj, SymStream
+from pyvc.values import SInt, SBool, Opaque, Builtin, PyList, PyDict, Obj, SymStream, GenObj
 from pyvc.ops import make_dict, dict_items, key_of
 from pyvc.repo import ClassInfo
 from .lib import UserVal, UserFn, install_user_hooks
@@ -413,6 +413,49 @@ def h_instantiate(kind, n_children):
     return Harness(f"instantiate-{kind}-{n_children}", run, spec=Spec(), covers=["yielded"])
 
 
+def h_result_role():
+    """the result of a predicate / symbolic function is a CONDITION where it stands below a logical operator or is the whole
+    condition of the query (its truth value is what the concrete call returns) and a VALUE where it is an operand (a falsy
+    result is reported like any other)"""
+    def run(vm):
+        ctx = vm.ctx
+        install(vm)
+        Var = cls(vm, SYM, "Variable")
+        seen = []
+
+        def fake_instantiate(it, a, k):
+            seen.append(a[2] if len(a) > 2 else k.get("is_condition", "default"))
+            return GenObj(iter(()), "no-combinations")
+        vm.spec.stubs["Variable._instantiate_using_child_vars_and_yield_results_"] = fake_instantiate
+        root = vm.alloc(cls(vm, SYM, "SymbolicExpression"), {"_id_": 1}, tag="conditions-root")
+        for pname, want in (("Comparator", False), ("AND", True), ("Not", True), ("ElseIf", True)):
+            parent = vm.alloc(cls(vm, SYM, pname), {"_id_": 10}, tag="parent-" + pname)
+            me = vm.alloc(Var, {"_id_": 5, "_type_": UserFn("pred", ["a"]), "_domain_": PyList([]), "_conditions_root_": root, "_eval_parent_": None,
+                                "_should_be_instantiated_": True, "_is_false_": False}, tag="predicate-variable")
+            del seen[:]
+            list(vm.iterate(vm.call(vm._getattr(me, "_evaluate__"), [make_dict([])], {"parent": parent})))
+            ctx.check("Variable._evaluate__::a-predicate-result-is-a-condition-below-a-logical-operator-and-a-value-as-an-operand",
+                      z3.BoolVal(seen == [want]), detail=f"below {pname}: is_condition={seen}")
+        me = vm.alloc(Var, {"_id_": 5, "_type_": UserFn("pred", ["a"]), "_domain_": PyList([]), "_eval_parent_": None, "_should_be_instantiated_": True, "_is_false_": False}, tag="predicate-variable")
+        me.fields["_conditions_root_"] = me
+        del seen[:]
+        list(vm.iterate(vm.call(vm._getattr(me, "_evaluate__"), [make_dict([])], {"parent": vm.alloc(cls(vm, SYM, "Entity"), {"_id_": 11}, tag="descriptor")})))
+        ctx.check("Variable._evaluate__::a-predicate-that-is-the-whole-condition-is-a-condition", z3.BoolVal(seen == [True]), detail=repr(seen))
+        del vm.spec.stubs["Variable._instantiate_using_child_vars_and_yield_results_"]
+        # the flag of the result
+        for is_condition in (True, False):
+            me = vm.alloc(Var, {"_id_": 5}, tag="predicate-variable")
+            val = UserVal("result")
+            base = len(vm.ctx.effects)
+            r = vm.call_method(me, "_process_output_and_update_values_", val, make_dict([]), is_condition)
+            isf = r.fields["is_false"]
+            if is_condition:
+                ctx.check("Variable._process_output_and_update_values_::as-a-condition-the-flag-is-the-falsity-of-the-result", z3.BoolVal(isinstance(isf, (SBool, bool))))
+            else:
+                ctx.check("Variable._process_output_and_update_values_::as-an-operand-the-result-is-never-reported-false", z3.BoolVal(isf is False), detail=repr(isf))
+    return Harness("result-role", run, spec=Spec())
+
+
 def h_predicate_variable_init():
     """the condition a symbolic call builds keeps exactly the arguments that were written: every parameter given maps to the same
     expression (if symbolic) or to its OWN Literal over exactly that constant (0 / False / 1 / True / 1.0 stay apart); parameters
@@ -472,7 +515,7 @@ def h_canary():
 
 
 def harnesses():
-    hs = [h_merge(), h_argument_names(), h_symbolic_function(), h_predicate_new(), h_predicate_variable_init()]
+    hs = [h_merge(), h_argument_names(), h_symbolic_function(), h_predicate_new(), h_predicate_variable_init(), h_result_role()]
     for kind in ("function", "predicate"):
         for n in (1, 2, 3):
             hs.append(h_instantiate(kind, n))
